@@ -659,6 +659,12 @@ func domLedger(env *Env) error {
 		if hi == 0 && c.Halted == "" && env.Str("f01a", "0") == "1" {
 			w.directedNstOvershoot()
 		}
+		if hi == 0 && c.Halted == "" && env.Str("f03c", "0") == "1" {
+			w.directedWithdrawAfterReward()
+		}
+		if hi == 0 && c.Halted == "" && env.Str("f03d", "0") == "1" {
+			w.directedRoundingGain(kinds)
+		}
 		if hi == 0 && c.Halted == "" && env.Str("f03a", "0") == "1" {
 			w.directedNonceCollision()
 		}
@@ -886,6 +892,7 @@ func (w *ledgerWorld) step(prev *ledgerSnap, kinds map[string]int) *ledgerSnap {
 				ClientChainLzID: c.LzID, Action: assetstypes.WithdrawLST, StakerAddress: st.Eth.Bytes(), AssetsAddress: w.assetAddr(ai), OpAmount: x})
 		})
 		finish("withdraw", fmt.Sprintf("ledger.withdraw %s %s %s", sid, asset, x), err, map[string]*big.Int{asset: new(big.Int).Neg(x.BigInt())})
+		w.monitorWithdraw(prev, sid, asset, x, err)
 	case 2: // delegate
 		if forcedKind < 0 && !native && r.Chance(1, 3) { // to an operator this staker already delegates to (another asset, typically)
 			for _, k := range sortedKeys(prev.deleg) {
